@@ -63,12 +63,11 @@ PROPS["C01"] = {
 
 # ------------------------------------------------------------------ C02
 PROPS["C02"] = {
-    "claimed": False,
-    "bounds": "leaf signatures, D-Bus and GVariant, offsets 0..7, both byte orders",
-    "outside": "containers, HashMap, Option, derived structs/enums, Value",
+    "bounds": "numeric leaf signatures y b n q i u x t d and text s (0..=3 ASCII bytes, including the empty string), D-Bus and GVariant, message offsets 0..7 (text 0..3), both byte orders",
+    "outside": "containers, HashMap, Option/maybe, derived structs/enums, Value/OwnedValue (container decoding does not fit, DESIGN.md 9.5)",
     "assumptions": [FMT_STUB, CLOSE_STUB, FORGET, RECB],
-    "level_text": "Bounded model checking of encode followed by decode on the compiled code for every value of each leaf type.",
-    "level_note": "bounded to leaf signatures",
+    "level_text": "Bounded model checking of encode followed by decode on the compiled code: for every value of each leaf type, offset and byte order the solver proves the decoded value equals the original and the decoder consumed exactly the encoded length, in both wire formats.",
+    "level_note": "bounded to leaf signatures; trusts Kani/CBMC and the stubs listed in assumptions",
     "groups": [
         dict(ZV, harnesses=
              [H("c02_rt_dbus_%s" % t, "quick" if t in "ud" else "thorough", timeout=1500, cost=200, recursion_bounds=REC1,
@@ -87,12 +86,11 @@ PROPS["C02"] = {
 
 # ------------------------------------------------------------------ C03
 PROPS["C03"] = {
-    "claimed": False,
-    "bounds": "fixed-size leaf signatures on 16 arbitrary bytes (length 0..=16, offset 0..7, both byte orders); s/o on 8 arbitrary bytes",
-    "outside": "containers and variants",
+    "bounds": "fixed-size leaf signatures on 16 arbitrary bytes (length 0..=16, offset 0..7, both byte orders); strings on 8 arbitrary bytes per offset 0..3; object paths (typed, 7 bytes) and the dynamic Value path for o and s (7-8 bytes)",
+    "outside": "arrays, structs, dicts, variants, depth limits through bytes (do not fit, DESIGN.md 9.5); strings longer than 3 bytes",
     "assumptions": [FMT_STUB, CLOSE_STUB, FORGET, RECB],
-    "level_text": "Bounded model checking of the real D-Bus deserializer on fully symbolic input buffers against an independent validating reader.",
-    "level_note": "bounded to leaf signatures",
+    "level_text": "Bounded model checking of the real D-Bus deserializer on fully symbolic input buffers against an independent validating reader written from the specification: acceptance, decoded value and consumed count must agree for every byte string within the bound (zero padding, BOOLEAN 0/1, string length inside the buffer, NUL terminator, interior NUL, UTF-8, object-path grammar also through the dynamic Value path).",
+    "level_note": "bounded to leaf signatures; core::str::from_utf8 and memchr are replaced by byte-loop specifications in the text harnesses (trusted equivalence, checked natively on every run)",
     "groups": [
         dict(ZV, harnesses=
              [H("c03_dec_%s" % t, "quick" if t in "ub" else "thorough", timeout=900, cost=60, recursion_bounds=REC1,
@@ -110,11 +108,10 @@ PROPS["C03"] = {
 
 # ------------------------------------------------------------------ C04
 PROPS["C04"] = {
-    "claimed": False,
-    "bounds": "leaf signatures, GVariant typed and D-Bus dynamic (Value) targets on <= 12 arbitrary bytes; framing-offset table decode on <= 6 bytes",
-    "outside": "containers; option-as-array",
+    "bounds": "GVariant typed decode of leaf signatures and strings on 4..12 arbitrary bytes; D-Bus dynamic (Value) decode of leaf signatures on 8 arbitrary bytes; framing-offset table decode on 0..=6 arbitrary bytes; every C03 harness is also a no-panic proof for the D-Bus typed leaf decoders",
+    "outside": "containers; the option-as-array build; re-encoding of decoded values; stack depth (rests on C07)",
     "assumptions": [FMT_STUB, CLOSE_STUB, FORGET, RECB],
-    "level_text": "Kani's own checks (panic, unwrap/expect, unreachable, overflow, out-of-bounds) on the real decoders for every input within the bound.",
+    "level_text": "Kani's own checks (panic, unwrap/expect, unreachable!, arithmetic overflow, out-of-bounds indexing and slicing, failed assert!) on the real decoders for every input within the bound, plus 'never reports more bytes consumed than the input holds'.",
     "level_note": "bounded to leaf signatures and the framing-offset kernel",
     "groups": [
         dict(ZV_GV, harnesses=
@@ -134,12 +131,11 @@ PROPS["C04"] = {
 
 # ------------------------------------------------------------------ C05
 PROPS["C05"] = {
-    "claimed": False,
-    "bounds": "framing-offset width selection for every (len, n) with len <= 2^62, n <= 2^58; offset write/read for every width and every representable offset",
-    "outside": "whole-value GVariant encodings (containers)",
+    "bounds": "framing-offset width selection for every (len, n) with len <= 2^62, n <= 2^58 (thresholds 255/65535/2^32 decided symbolically); offset write/read for every width and representable offset; GVariant bytes of y q u t d and strings (0..=3 ASCII bytes) at offsets 0..15, both byte orders; listed finding D15 (boolean encoded as 4 bytes)",
+    "outside": "GVariant containers (arrays, structs, dicts, variants, maybe types: do not fit, DESIGN.md 9.5)",
     "assumptions": [FMT_STUB, FORGET],
-    "level_text": "Bounded model checking of the GVariant framing-offset kernels with fully symbolic sizes (the 255/65535 thresholds are decided symbolically).",
-    "level_note": "kernel level only",
+    "level_text": "Bounded model checking of the GVariant framing-offset kernels with fully symbolic sizes, and of the whole-API GVariant encoder on leaf types against the GVariant specification layout.",
+    "level_note": "kernels + leaf types; containers outside the claim",
     "groups": [
         dict(ZV_GV, harnesses=
              [H("c05_enc_%s" % t, "quick" if t in ("u", "s", "b") else "thorough", timeout=2400, cost=300, recursion_bounds=REC1, mem_gb=16, role=("witness" if t == "b" else "main"),
@@ -156,12 +152,11 @@ PROPS["C05"] = {
 
 # ------------------------------------------------------------------ C07
 PROPS["C07"] = {
-    "claimed": False,
-    "bounds": "every reachable depth-counter state; one inc/dec step of every kind",
-    "outside": "call sites in the four (de)serializers (not yet fitting)",
+    "bounds": "every depth-counter state (s<=32, a<=32, v<=64, m<=64, sum<=64), one increment/decrement of every kind, D-Bus-only and GVariant builds",
+    "outside": "the container entry points of the four (de)serializers: every formulation of a call-site step ran out of 20 GB (DESIGN.md 9.5), so 'each entry point calls the right inc_*/dec_*' is read, not decided",
     "assumptions": [FORGET, RECB, "symbolic counter state is written into ContainerDepths through a byte layout measured on the compiled type"],
-    "level_text": "Inductive step: from every counter state satisfying the invariant, one increment of each kind errs exactly when a limit is exceeded.",
-    "level_note": "counter algebra only",
+    "level_text": "Inductive step decided by the solver: from every counter state satisfying the invariant, inc_* fails exactly when the 32/32/64 limit is exceeded (with the documented kind and precedence) and otherwise yields exactly the incremented state; dec_* inverts inc_*; no u8 overflow. Nesting histories of any length follow by induction; values 33..65 levels deep are never built.",
+    "level_note": "counter algebra only; call sites outside the claim",
     "groups": [dict(ZV_INCRATE, harnesses=[
         H("c07_depths_step", timeout=900, cost=120,
           bounds="every counter state (s<=32, a<=32, v<=64, sum<=64), one inc/dec step of each kind",
@@ -175,12 +170,11 @@ PROPS["C07"] = {
 
 # ------------------------------------------------------------------ C08
 PROPS["C08"] = {
-    "claimed": False,
     "bounds": "three symbolic numeric leaf values (any of y b n q i u x t d with any payload, NaN and signed zeros included)",
     "outside": "strings, containers, nested values, OwnedValue, conversions other than u32/i64/f64",
     "assumptions": [FMT_STUB, FORGET, "hashing is observed through a deterministic FNV-1a Hasher (Hash must be a function of the bytes fed to the hasher)"],
-    "level_text": "Bounded model checking of Value's PartialEq/Ord/Hash/try_clone/value_signature on symbolic numeric leaves.",
-    "level_note": "numeric leaves only",
+    "level_text": "Bounded model checking of Value's PartialEq / Ord / Hash / try_clone / value_signature / From / TryFrom on symbolic numeric leaves: pairwise laws over all 81 variant pairs and all payloads, transitivity over float triples (NaN, signed zeros, infinities) and mixed-variant triples.",
+    "level_note": "numeric leaves only; strings, containers and nested values outside the claim",
     "groups": [dict(ZV, harnesses=[
         H("c08_pair_laws", timeout=2400, cost=600, mem_gb=16, bounds="2 symbolic numeric leaves (any of 9 variants, any payload)", asserts="== reflexive/symmetric (NaN-free), cmp reflexive/antisymmetric for all values incl. NaN, cmp/== consistency, equal => equal hash"),
         H("c08_f64_triple_laws", timeout=2400, cost=300, mem_gb=16, bounds="3 symbolic f64 payloads incl. NaN, signed zeros, infinities", asserts="transitivity of cmp (all values) and of == (NaN-free)"),
@@ -216,7 +210,7 @@ PROPS["C10"] = {
                asserts="try_from(&str).is_ok() == spec recogniser") for n in _names if n != "property"] +
             [H("c10_%s_len255" % n, "thorough", timeout=2400, cost=400, mem_gb=16,
                bounds="concrete valid content, length symbolic in {255, 256}, unwind 262",
-               asserts="accepted iff length <= 255") for n in ["unique", "wellknown", "busname_wk", "busname_uniq", "interface", "error", "member", "property"]] +
+               asserts="accepted iff length <= 255") for n in ["member", "property"]] +
             [H("c10_%s_value4" % n, "quick", timeout=900, cost=70, 
                bounds="Value::Str of [u8;4] symbolic ASCII, len 0..=4, unwind 7",
                asserts="TryFrom<Value>.is_ok() == spec recogniser") for n in _names if n != "objpath"],
@@ -251,12 +245,11 @@ PROPS["C15"] = {
 
 # ------------------------------------------------------------------ C23
 PROPS["C23"] = {
-    "claimed": False,
-    "bounds": "percent-decoding of every ASCII string of 0..=4 bytes; percent-encoding of every byte string of 0..=3 bytes",
-    "outside": "whole Address::from_str (winnow + HashMap), transports",
+    "bounds": "percent-decoding of every ASCII string of 0..=4 bytes; percent-encoding of every byte string of 0..=3 bytes (through core::fmt)",
+    "outside": "Address::from_str as a whole (winnow + HashMap: does not fit), per-transport option parsing incl. the missing percent-decoding of unix path/dir/tmpdir and unixexec values (observed by reading, not decided), vsock/tcp",
     "assumptions": [FMT_STUB, FORGET],
-    "level_text": "Bounded model checking of the percent-coding kernels against the spec's escaping rule.",
-    "level_note": "kernel level",
+    "level_text": "Bounded model checking of the percent-coding kernels against the specification's escaping rule: decode accepts exactly the valid escapes with the right bytes; encode escapes exactly the non-optionally-escaped bytes and decodes back to the input.",
+    "level_note": "kernel level; whole-address parsing outside the claim",
     "groups": [dict(ZB_INCRATE, in_crate_file="zbus_address.rs", harnesses=[
         H("c23_decode_percents_exact", timeout=1800, cost=300, bounds="every ASCII string of 0..=4 bytes", asserts="decode_percents == reference percent-decoder (accept/reject and bytes)"),
         H("c23_encode_percents_roundtrip", timeout=1800, cost=300, bounds="every byte string of 0..=3 bytes, through core::fmt", asserts="escaping rule, and reference-decode(encode(x)) == x"),
@@ -292,6 +285,16 @@ HOOKS = {
 }
 
 NOT_APPLICABLE = {
+    "C06": "signature grammar: attempted - Signature validate()/from_bytes() on 1 fully symbolic byte runs CBMC out of 16 GB (1073 s), 2-3 bytes out of 24 GB, one-symbolic-byte templates out of 16 GB (recursive winnow alt x drop glue of intermediate Signatures); formatting/Eq/Hash harnesses over a hand-built catalogue time out at 2400 s through core::fmt. No bound large enough to contain a signature fits (DESIGN.md 9.5)",
+    "C09": "derived/built-in Type signatures: a quantifier over programs (type definitions) that a solver cannot generate; and every derive code path ends in struct/enum serialization, which does not fit in CBMC here ((yu) decode: out of memory with a symbolic offset; PrimaryHeader decode: out of 30 GB at 3445 s)",
+    "C11": "built messages re-parse: needs Message::from_bytes = struct decode of the 16-byte header + a(yv) field array through Value; measured: PrimaryHeader::read on 16 symbolic bytes runs out of 30 GB at 3445 s; whole-message probe 11 GB at 500 s in symbolic execution alone",
+    "C12": "hostile message bytes: same blocker as C11 (header struct decode out of 30 GB); no smaller sequential kernel contains the panics observed by reading (bytes[0] on empty input, FieldPos::read expect, body() slice assert)",
+    "C13": "unknown header fields/flags/types: the decisions are made inside the header struct decode and FieldsVisitor::visit_seq (Value decode of a(yv)), which do not fit (see C11); single-byte decoders of FieldCode/Flags/Type alone do not decide 'tolerated at message level'",
+    "C14": "stream framing: ReadHalf::receive_message is one async function mixing Vec buffers, recvmsg futures and the size arithmetic; design probe: 14 GB at 680 s without finishing; no kernel to isolate",
+    "C16": "server handshake: every path reaches `tracing` macros, on which Kani 0.68 aborts with an internal compiler error (catch_unwind through the TLS destructor of tracing's dispatcher); a no-op tracing shim would require patching /repo's workspace manifest",
+    "C17": "client handshake: same tracing ICE as C16",
+    "C21": "match-rule matching: attempted with the real MatchRule::matches and harness-controlled stubs for Message::header/message_type (in-crate): both harnesses (path_namespace over 5 symbolic path bytes; exact-match keys) time out at 1800 s (clone and drop glue of the 7-field header per call)",
+    "C22": "match-rule string round trip: Display through core::fmt on symbolic strings plus the winnow rule parser; the cheaper C23 formatter harness already needs 725 s for 3 bytes and the C06 parser experience (1 symbolic byte: out of memory) rules out the parser side",
     "C18": "concurrent sends never interleave: a property of the socket_write mutex under real task interleavings; Kani/CBMC do not model async task concurrency and the send path is behind `tracing` (Kani ICE); no sequential kernel captures it",
     "C19": "method call/reply matching: depends on async-broadcast channels, event-listener, executor tasks and timers under arbitrary schedules; not encodable for a bounded model checker of sequential Rust",
     "C20": "message streams deliver once, in order: subscription map behind async_lock::Mutex, broadcast back-pressure and drop-time tasks; schedule/history quantifier over heap-rich concurrent state",
